@@ -40,12 +40,13 @@ where
         // The size may come from an untrusted archive header, do not allocate
         // all of it before any data has been read.
         let mut buf = BytesMut::with_capacity(std::cmp::min(size, MAX_PREALLOCATION));
+        // Never read beyond the requested range, however the buffer grows.
+        let mut reader = (&mut self.0).take(size as u64);
         while buf.len() < size {
-            if self.0.read_buf(&mut buf).await? == 0 {
+            if reader.read_buf(&mut buf).await? == 0 {
                 return Err(io::ErrorKind::UnexpectedEof.into());
             }
         }
-        buf.truncate(size);
         Ok(buf.freeze())
     }
 
